@@ -26,9 +26,12 @@ LEAVES = {
     'G': ('a', 'b'), 'W': ('b', 'a'), 'Ib': ('b', 'b'), 'Kb': ('b', 'b'),
     'R': ('s', 's'), 'Rt': ('s', 's'), 'H': ('s', 's'), 'Is': ('s', 's'),
     'It': ('t', 't'), 'Kt': ('t', 't'), 'Dt': ('t', 't'),
+    # same leaves, different containers: (a, a) versus {'a': a, 'b': a} - only the tree structure distinguishes them
+    'Itp': ('tp', 'tp'), 'Ktp': ('tp', 'tp'), 'Btp': ('tp', 'tp'), 'Ctp': ('a', 'tp'), 'Rtp': ('tp', 'a'),
+    'Idc': ('dc', 'dc'), 'Kdc': ('dc', 'dc'), 'Bdc': ('dc', 'dc'), 'Cdc': ('a', 'dc'), 'Rdc': ('dc', 'a'),
 }
 CORE = ['P', 'Q', 'PQ', 'PpQ', 'I', 'K', 'D', 'Di', 'Si', 'G', 'W']
-CORE_THOROUGH = CORE + ['Km', 'S', 'Ib', 'Kb']
+CORE_THOROUGH = CORE + ['Km', 'S', 'Ib', 'Kb', 'Btp', 'Bdc', 'Ctp', 'Rdc']
 SCALARS = ['int3', 'float.5', 'neg2', 'npf32', 'np0d', 'jnpf32', 'jnp0d', 'jnp1d', 'np1d', 'list']
 SCALAR_OK = {'int3': 3.0, 'float.5': 0.5, 'neg2': -2.0, 'npf32': 1.5, 'np0d': 2.0, 'jnpf32': 0.25, 'jnp0d': 4.0}
 BIN = ['@', '+', '-']
@@ -142,6 +145,14 @@ def env():
         'It': IdentityOperator(t), 'Kt': hom(-2.0, t), 'Dt': DiagonalOperator(jnp.asarray([2.0, -4.0], f32), axis_destination=0, in_structure=t),
         'Dz': Dz, 'Dzi': Dz.I,
     }
+    from furax._base.blocks import BlockColumnOperator, BlockDiagonalOperator, BlockRowOperator
+
+    tp, dc = (a, a), {'a': a, 'b': a}
+    leaves.update({
+        'Itp': IdentityOperator(tp), 'Ktp': hom(3.0, tp), 'Btp': BlockDiagonalOperator((Pm, Qm)), 'Ctp': BlockColumnOperator((Qm, Pm)), 'Rtp': BlockRowOperator((Pm, Qm)),
+        'Idc': IdentityOperator(dc), 'Kdc': hom(-2.0, dc), 'Bdc': BlockDiagonalOperator({'a': Qm, 'b': Pm}), 'Cdc': BlockColumnOperator({'a': Pm, 'b': Qm}),
+        'Rdc': BlockRowOperator({'a': Qm, 'b': Pm}),
+    })
     mats = {n: P.probe(op, cache=False).M for n, op in leaves.items()}
     scal = {
         'int3': 3, 'float.5': 0.5, 'neg2': -2.0, 'npf32': np.float32(1.5), 'np0d': np.array(2.0, np.float32),
